@@ -120,9 +120,26 @@ func buildNameIndex() {
 // levelType determines the ontology type of an object level from its "type"
 // member, or from the typeless range of the property that holds it.
 func levelType(m map[string]interface{}, parentProp string) string {
+	// A property ranged over typeless kinds only (security publicKey) reads
+	// every object as that kind whatever its "type" member says: the member
+	// is then just an unknown member of the typeless value.
+	if parentProp != "" {
+		kt := O.KindTypes(parentProp)
+		allTypeless := len(kt) > 0
+		for _, k := range kt {
+			if !O.Types[k].Typeless {
+				allTypeless = false
+			}
+		}
+		if allTypeless {
+			return kt[0]
+		}
+	}
 	switch tv := m["type"].(type) {
 	case string:
-		return typeByName[strings.TrimPrefix(tv, "as:")]
+		if k := typeByName[strings.TrimPrefix(tv, "as:")]; k != "" {
+			return k
+		}
 	case []interface{}:
 		for _, e := range tv {
 			if s, ok := e.(string); ok && typeByName[s] != "" {
